@@ -235,7 +235,6 @@ def run(ck):
     try:
         changed = gen_data_writers.write(vlib.REPO)
         ck.note("data_writers_regenerated", bool(changed))
-        _, entries = gen_data_writers.generate(vlib.REPO) if False else (None, None)
     except gen_data_writers.GenError as e:
         ck.unproved("translator gen_data_writers (store sites / guard constants of the working tree)", str(e))
     # 2. proofs
